@@ -20,6 +20,7 @@ struct eng_profile {
         unsigned p_garbage_line;    /* % garbage lines */
         unsigned p_long_line;       /* % over-long argument lines */
         unsigned max_lines;
+        unsigned p_lookup;          /* per-mille chance per service step that the harness calls the lookup helpers of the public API */
         unsigned p_cut;             /* % of histories whose stimulus phase is cut at a random step (progress measured from mid-flight) */
         bool unspecified_cells;     /* also enter cells the properties leave open (C03 replay only) */
 };
